@@ -27,6 +27,33 @@ class Call:
         self.result = None
 
 
+def ops_parent(x):
+    for attr in ("netlist", "library", "definition", "parent"):
+        if hasattr(x, attr):
+            v = getattr(x, attr)
+            if not callable(v):
+                return v
+    return None
+
+
+def ops_members(x):
+    n = 0
+    for attr in ("libraries", "definitions", "ports", "cables", "children"):
+        if hasattr(x, attr):
+            n += len(getattr(x, attr))
+    return n
+
+
+def self_contained(N):
+    """Netlist.clone() is documented for self-contained netlists ("all references are internal to
+    the netlist that has been cloned"): every instance of it references a definition inside it"""
+    inside = {id(D) for L in N.libraries for D in L.definitions}
+    insts = [I for L in N.libraries for D in L.definitions for I in D.children]
+    if N.top_instance is not None:
+        insts.append(N.top_instance)
+    return all(getattr(I, "reference", None) is None or id(I.reference) in inside for I in insts)
+
+
 def bulk_arg(xs, mode):
     """the bulk removers take any iterable: list, set, tuple or a one-shot generator"""
     m = mode % 4
@@ -128,7 +155,14 @@ class Universe:
 
     def pick(self, kind, idx):
         p = self.pool[kind]
-        return p[idx % len(p)] if p else None
+        if not p:
+            return None
+        if idx >= 28 and len(p) > 3:
+            # high draws go to the most recently created third of the pool (fresh clones, elements
+            # of a half-finished edit): follow-up calls on what was just made are where state leaks
+            recent = max(1, len(p) // 3)
+            return p[len(p) - 1 - (idx % recent)]
+        return p[idx % len(p)]
 
 
 def _pick(lst, idx):
@@ -609,10 +643,20 @@ class Interpreter:
                 return None
             return Call(name, None, [I, ip], mk)
 
+        if name == "ns.default=":
+            # configuration, not an edit: elements created from now on get the other naming policy
+            # (adding them to a parent of a different policy converts them, or is refused)
+            v = ["DEFAULT", "EDIF"][mode % 2]
+
+            def setdefault():
+                sdn.namespace_manager.default = v
+            return Call(name, None, [v], setdefault, kind="config")
         if name == "el.clone_container":
             cs = U.pool["netlist"] + U.pool["library"] + U.pool["definition"]
             E = _pick(cs, t)
             if E is None:
+                return None
+            if isinstance(E, sdn.Netlist) and not self_contained(E):
                 return None
 
             def mkclone():
@@ -622,6 +666,11 @@ class Interpreter:
             return Call(name, E, [], mkclone, kind="clone")
         if name.startswith("el."):
             els = U.first_class()
+            if name in ("el.set", "el.del", "el.pop") and key == ".NS" and own:
+                # a policy switch is only possible on parentless roots: prefer those that have members
+                roots = [x for x in els if ops_parent(x) is None and ops_members(x)]
+                if roots:
+                    els = roots
             if name in ("el.set", "el.del", "el.pop") and key in (".NAME", "EDIF.identifier") and own:
                 # prefer elements that already carry the key (re-identifying / un-naming an indexed
                 # element is where index and data can part ways)
@@ -667,6 +716,8 @@ class Interpreter:
                     v = s
                     if v is None:
                         return None
+                elif key == ".NS":
+                    v = ["DEFAULT", "EDIF", "EDIF", "NO_SUCH_POLICY"][b % 4]
                 else:
                     v = val
 
@@ -680,6 +731,8 @@ class Interpreter:
             if name == "el.pop":
                 return Call(name, E, [key], lambda: (E.pop(key), None)[1], kind="data", key=key)
             if name == "el.clone":
+                if isinstance(E, sdn.Netlist) and not self_contained(E):
+                    return None
                 return Call(name, E, [], lambda: E.clone(), kind="clone")
             return None
         return None
@@ -705,13 +758,13 @@ STRUCT_OPS = [
     "bundle.is_downto=", "bundle.is_scalar=", "bundle.is_array=", "bundle.lower_index=",
     "wire.connect_pin", "wire.disconnect_pin", "wire.disconnect_pins_from", "wire.pins=",
     "inst.reference=", "inst.del_reference", "proxy.new",
-    "el.name=", "el.del_name", "el.set", "el.del", "el.pop",
+    "el.name=", "el.del_name", "el.set", "el.del", "el.pop", "ns.default=",
 ]
 
-NAMES = ["a", "A", "b", "a_1", "c", "a[3]", "x y", "d"]
+NAMES = ["a", "A", "b", "a_1", "c", "a[3]", "x y", "d", ""]
 IDENTS = ["a", "A", "b", "aB", "Ab", "b_", "&1", "c"]
 IDENTS_SET = IDENTS + ["1a", "a-b", "a b", "", "x" * 256, "B", "AB"]
-KEYS = [".NAME", "EDIF.identifier", "K", "user.k"]
+KEYS = [".NAME", "EDIF.identifier", "K", "user.k", ".NS"]
 
 
 def op_strategy(weights, names=NAMES, keys=KEYS, own_bias=3):
